@@ -196,6 +196,22 @@ fn typed_constant_cases() -> Vec<Case> {
             out.push(Case { id: format!("SpecConstant:{}:pattern{}", tn, k), insts: vec![ty.clone(), sc], raw: None, version: 0x0001_0400, bound: 30 });
         }
     }
+    // two constants that carry the SAME result id but have types of different classes (ids defined twice: the loader
+    // accepts it): how a literal is printed follows the constant's own result TYPE, nothing else
+    {
+        let pairs: Vec<(usize, usize)> = (0..types.len()).flat_map(|a| (0..types.len()).map(move |b| (a, b))).filter(|(a, b)| a != b && types[*a].2 == 1 && types[*b].2 == 1).collect();
+        for (a, b) in pairs {
+            let mut ta = types[a].1.clone();
+            ta.rid = Some(10);
+            let mut tb = types[b].1.clone();
+            tb.rid = Some(11);
+            for v in [0xFFFF_FFFBu32, 0x4040_0000] {
+                let c1 = Inst::new("Constant", Some(10), Some(20), vec![Arg::Lit32(v)]);
+                let c2 = Inst::new("Constant", Some(11), Some(20), vec![Arg::Lit32(v ^ 1)]);
+                out.push(Case { id: format!("Constant:same-id:{}:{}:{:#x}", types[a].0, types[b].0, v), insts: vec![ta.clone(), tb.clone(), c1, c2], raw: None, version: 0x0001_0400, bound: 30 });
+            }
+        }
+    }
     // every id renamed (descending, scattered, across 2^16 / 2^22, just below 2^32), with a second type and constant in
     // front so that ids are first seen out of order: how a literal is printed must not depend on the magnitude of the
     // type's id or on the order of declaration
@@ -250,6 +266,13 @@ fn ext_inst_cases() -> Vec<Case> {
         let mut rid = 60;
         for set in 5..=(5 + sq.len() as u32) {
             for n in [1u32, 4, 81, 160, 500] {
+                insts.push(Inst::new("ExtInst", Some(50), Some(rid), vec![Arg::IdRef(set), Arg::ExtInstNo(n), Arg::IdRef(61)]));
+                rid += 1;
+            }
+        }
+        // the same again number-major: the same number through one set and then directly through the next
+        for n in [1u32, 4, 81, 160, 500] {
+            for set in 5..=(5 + sq.len() as u32) {
                 insts.push(Inst::new("ExtInst", Some(50), Some(rid), vec![Arg::IdRef(set), Arg::ExtInstNo(n), Arg::IdRef(61)]));
                 rid += 1;
             }
